@@ -4,10 +4,10 @@
 
   The model follows the code:
   * bresenham_line_rasterizer: the `start == end` shortcut, the transposition (`needs_flip`), the
-    for loop with its error term, the final `*d_first++ = end`.  The error term is a parameter
-    (`mk h w : σ → Bool × σ` = "add the slope, decide, maybe subtract one"), so that the structure
-    theorems hold for EVERY decision stream; the executable model instantiates it with Lean `Float`
-    (IEEE double: the same operations as the C++), and `exactStep` is the same recurrence in exact
+    for loop with its error term and the `y != end.y` guard (fix 51ba32c), the final `*d_first++ = end`.
+    The error term is a parameter (`Err σ`: add the slope / compare with 0.5 / subtract one), so that the
+    structure theorems hold for EVERY decision stream; the executable model instantiates it with Lean `Float`
+    (IEEE double: the same operations as the C++), and `exactErr` is the same recurrence in exact
     arithmetic (scaled by 2·width), used for the kernel-checked witnesses.
   * midpoint_circle_rasterizer: the integer loop with `n = point_count()/8` as a parameter
     (it comes from `round(r·cos(π/4))`, floating point), the 8-fold mirroring lambda.
@@ -37,11 +37,22 @@ def pointCount (s e : Pt) : Int := line_point_count s.1 s.2 e.1 e.2
 /-- `needs_flip ? point_t{y, x} : point_t{x, y}` -/
 def emit (flip : Bool) (x y : Int) : Pt := if flip then (y, x) else (x, y)
 
-/-- the for loop: `n` iterations from `(x, y)`; `step` = error-term update, returns the decision -/
-def lineLoop {σ : Type} (step : σ → Bool × σ) (flip : Bool) (xi yi : Int) : Nat → σ → Int → Int → List Pt
+/-- The error term of the loop, abstractly: `adv` = `error_term += slope`, `dec` = `error_term >= 0.5`,
+    `sub` = `--error_term`.  The structure theorems hold for every such triple. -/
+structure Err (σ : Type) where
+  adv : σ → σ
+  dec : σ → Bool
+  sub : σ → σ
+
+/-- the for loop: `n` iterations from `(x, y)`; `ey` is `end.y` (after the transposition):
+    `error_term += slope; if (error_term >= 0.5 && y != end.y) { --error_term; y += y_increment; }` -/
+def lineLoop {σ : Type} (E : Err σ) (flip : Bool) (xi yi ey : Int) : Nat → σ → Int → Int → List Pt
   | 0, _, _, _ => []
   | n + 1, s, x, y =>
-    emit flip x y :: lineLoop step flip xi yi n (step s).2 (x + xi) (if (step s).1 then y + yi else y)
+    emit flip x y ::
+      (if E.dec (E.adv s) && decide (y ≠ ey)
+       then lineLoop E flip xi yi ey n (E.sub (E.adv s)) (x + xi) (y + yi)
+       else lineLoop E flip xi yi ey n (E.adv s) (x + xi) y)
 
 /-- `needs_flip = width < height` -/
 def needsFlip (s e : Pt) : Bool := decide (iabs (e.1 - s.1) + 1 < iabs (e.2 - s.2) + 1)
@@ -51,7 +62,7 @@ def maj (flip : Bool) (p : Pt) : Int := if flip then p.2 else p.1
 def mnr (flip : Bool) (p : Pt) : Int := if flip then p.1 else p.2
 
 /-- `operator()(d_first)`: `mk height width` builds the error-term step for the slope height/width -/
-def lineWith {σ : Type} (mk : Int → Int → σ → Bool × σ) (init : σ) (s e : Pt) : List Pt :=
+def lineWith {σ : Type} (mk : Int → Int → Err σ) (init : σ) (s e : Pt) : List Pt :=
   if s = e then [s] else
   let flip := needsFlip s e
   let sx := maj flip s; let sy := mnr flip s          -- after the swaps
@@ -60,21 +71,19 @@ def lineWith {σ : Type} (mk : Int → Int → σ → Bool × σ) (init : σ) (s
   let height := iabs (ey - sy) + 1
   let xi : Int := if ex ≥ sx then 1 else -1
   let yi : Int := if ey ≥ sy then 1 else -1
-  lineLoop (mk height width) flip xi yi (iabs (ex - sx)).toNat init sx sy ++ [e]
+  lineLoop (mk height width) flip xi yi ey (iabs (ex - sx)).toNat init sx sy ++ [e]
 
-/-- the C++ error term: `double`, `error_term += slope; if (error_term >= 0.5) { --error_term; … }` -/
-def floatStep (height width : Int) (e : Float) : Bool × Float :=
+/-- the C++ error term: `double`, `error_term += slope; if (error_term >= 0.5 …) { --error_term; … }` -/
+def floatErr (height width : Int) : Err Float :=
   let slope : Float := if height = 1 then 0 else Float.ofInt height / Float.ofInt width
-  let e' := e + slope
-  if e' ≥ 0.5 then (true, e' - 1) else (false, e')
+  { adv := fun e => e + slope, dec := fun e => e ≥ 0.5, sub := fun e => e - 1 }
 
 /-- the same recurrence in exact arithmetic, error term scaled by `2·width` -/
-def exactStep (height width : Int) (E : Int) : Bool × Int :=
-  let E' := E + (if height = 1 then 0 else 2 * height)
-  if E' ≥ width then (true, E' - 2 * width) else (false, E')
+def exactErr (height width : Int) : Err Int :=
+  { adv := fun E => E + (if height = 1 then 0 else 2 * height), dec := fun E => decide (E ≥ width), sub := fun E => E - 2 * width }
 
-def line (s e : Pt) : List Pt := lineWith floatStep (0 : Float) s e
-def lineExact (s e : Pt) : List Pt := lineWith exactStep (0 : Int) s e
+def line (s e : Pt) : List Pt := lineWith floatErr (0 : Float) s e
+def lineExact (s e : Pt) : List Pt := lineWith exactErr (0 : Int) s e
 
 /-! ## circles -/
 
@@ -228,15 +237,6 @@ def nearSegment (s e : Pt) (p : Pt) : Bool :=
   let dM := maj f e - maj f s; let dm := mnr f e - mnr f s
   decide (iabs ((mnr f p - mnr f s) * dM - (maj f p - maj f s) * dm) ≤ iabs dM)
 def specNear (s e : Pt) (pts : List Pt) : Bool := pts.all (nearSegment s e)
-
-/-- the provable remainder of the bounding-box clause (holds for every decision stream): the major
-    coordinate stays between the end points, the minor coordinate of the k-th point has moved
-    between 0 and k steps in the direction of the end point -/
-def specLinePartial (s e : Pt) (pts : List Pt) : Bool :=
-  let f := needsFlip s e
-  (pts.dropLast.zipIdx).all (fun (p, k) =>
-    decide (min (maj f s) (maj f e) ≤ maj f p) && decide (maj f p ≤ max (maj f s) (maj f e)) &&
-    decide (0 ≤ (mnr f p - mnr f s) * mnrDir s e) && decide ((mnr f p - mnr f s) * mnrDir s e ≤ (k : Int)))
 
 /-- closed under the 8 reflections of the square about the centre -/
 def reflections (c p : Pt) : List Pt := mirror8 c (p.1 - c.1, p.2 - c.2)
